@@ -29,6 +29,7 @@ from __future__ import absolute_import
 import logging
 logger = logging.getLogger(__name__)
 
+import numbers
 import msgpack
 
 from spyne import ValidationError
@@ -125,6 +126,9 @@ class MessagePackDocument(HierDictDocument):
 
     def _ret_number(self, _, value):
         if isinstance(value, NON_NUMBER_TYPES):
+            raise ValidationError(value)
+        if value is not None and not isinstance(value, numbers.Number):
+            # eg. msgpack.Timestamp or another ext type
             raise ValidationError(value)
         if value in (True, False):
             return int(value)
